@@ -82,6 +82,21 @@ func verifyFunction(p *Program, ct *Contracts, fc *FuncContract, cc *CaseContrac
 		e.assumeAllocated(st, pc, v)
 	}
 	e.assume("true", not(sel(e.comp(st, "alloc", arrSort(sBool)), "0"))) // nil is never an allocated object
+	f.describeInputs(st)
+	{
+		rp := append([]*Clause{}, fc.Replay...)
+		if cc != nil {
+			rp = append(rp, cc.Replay...)
+		}
+		renv := f.contractEnv(st, st)
+		for _, cl := range rp {
+			v := renv.eval(cl.Expr)
+			kind := map[string]string{sInt: "int", sBool: "bool", sStr: "str", sF64: "f64"}[v.Sort]
+			if kind != "" && v.Loc == nil {
+				e.addInput(cl.Label, v.T, kind)
+			}
+		}
+	}
 	for _, un := range fc.Unshared {
 		if v := f.params[un]; v != nil {
 			e.unshared = append(e.unshared, v.T)
